@@ -37,6 +37,9 @@ pub struct DeclaredHeaders {
     pub a: String,
     #[serde(rename = "x-verif-b")]
     pub b: String,
+    /// header names are case-insensitive: a declared name may be written in any case
+    #[serde(rename = "X-Verif-Mixed")]
+    pub mixed: String,
 }
 
 #[derive(Clone, Debug, Serialize, Deserialize, JsonSchema)]
@@ -152,7 +155,7 @@ pub fn resp_spec() -> impl Strategy<Value = RespSpec> {
         kind,
         json_value(),
         resp_body(),
-        (header_text(), header_text()).prop_map(|(a, b)| DeclaredHeaders { a, b }),
+        (header_text(), header_text(), "[!-~]{1,12}").prop_map(|(a, b, mixed)| DeclaredHeaders { a, b, mixed }),
         proptest::collection::vec((prop::sample::select(EXPLICIT_NAMES.to_vec()), header_text()), 0..4),
         location_text(),
     )
@@ -182,6 +185,7 @@ fn expected_headers(s: &RespSpec) -> BTreeMap<String, Vec<String>> {
     let mut m: BTreeMap<String, Vec<String>> = BTreeMap::new();
     m.insert("x-verif-a".into(), vec![s.declared.a.clone()]);
     m.insert("x-verif-b".into(), vec![s.declared.b.clone()]);
+    m.insert("x-verif-mixed".into(), vec![s.declared.mixed.clone()]);
     // explicit headers override declared ones of the same name; several
     // explicit values for one name are all sent
     let mut explicit: BTreeMap<String, Vec<String>> = BTreeMap::new();
@@ -294,7 +298,7 @@ fn judge(s: &RespSpec, status: u16, headers: &[(String, Vec<u8>)], body: &[u8], 
             want.sort();
             ensure!(
                 got == want,
-                if name.starts_with("x-verif-a") || name.starts_with("x-verif-b") { "declared-or-overridden-header" } else { "explicit-header" },
+                if name.starts_with("x-verif-a") || name.starts_with("x-verif-b") || name.starts_with("x-verif-mixed") { "declared-or-overridden-header" } else { "explicit-header" },
                 "header {}: expected values {:?}, response has {:?} (declared a={:?} b={:?}, explicit {:?})",
                 name,
                 vals,
